@@ -221,6 +221,11 @@ func judge(prop, tier string, seed int, res *runResult, start time.Time, writeBa
 			}
 			continue
 		}
+		if o.Vacuous {
+			failedNames[bn] = true
+			undecided = append(undecided, map[string]any{"obligation": o.Name, "verdict": o.Verdict, "kind": o.Kind, "clause": o.Clause, "reason": "vacuous: the hypothesis of the clause can never hold"})
+			continue
+		}
 		if ok(o) {
 			claimed++
 			discharged++
